@@ -231,6 +231,11 @@ def methods(draw, U, name=None, xml=True, styles=("wrapped",), max_args=4, facet
         else:
             args = [["a", dict(draw(prim_trefs(facets=False, exclude=prim_exclude)),
                                occ={"min": 0, "max": 1, "nillable": True})]]
+        if not xml and draw(st.integers(0, 3)) == 0:
+            # a bare array argument (dict families): {"m0": [..]}
+            inner = {"k": "ref", "n": draw(st.sampled_from(cn))} if cn and draw(st.booleans()) \
+                else draw(prim_trefs(facets=False, exclude=prim_exclude))
+            args = [["a", {"k": "array", "of": inner, "occ": {"min": 0, "max": 1, "nillable": True}}]]
         if draw(st.integers(0, 4)) == 0:
             args = []
     else:
